@@ -636,3 +636,11 @@ func compactStruct(sb *strings.Builder, v, rv reflect.Value, depth int) {
 	}
 	sb.WriteString("}")
 }
+
+// Any is the snapshot of an arbitrary library value (a typed option value, a DUID, a label
+// set, an option list): the same rendering as inside V4 / V6.
+func Any(v any) string {
+	w := &walker{}
+	w.walk("", reflect.ValueOf(v), true, 0)
+	return w.sb.String()
+}
